@@ -311,6 +311,25 @@ def gen_lifecycle(rng, idx):
         s.quiesce()
         s.add(op="cancel_all"); s.add(op="drain")
         return s.out()
+    if r.random() < 0.12 and pre < 0.9:
+        # async_disconnect while the connection is being re-established and a QoS 2 exchange sits in its PUBREL phase
+        s.quiesce(ms=30000)
+        if s.held: s.add(op="unhold"); s.held = False
+        s.add(op="hold", kinds=["PUBCOMP"] if r.random() < 0.7 else ["PUBREC"])
+        s.pub(2); s.pub(r.choice([0, 1, 2]))
+        s.add(op="advance", ms=1)
+        m = r.random()
+        if m < 0.5:
+            s.add(op="fault", ec="reset", nr=r.choice([0, 1]))
+            s.add(op="disc", id=s.oid(), rc=0, now=r.choice([0, 1]))
+        else:
+            s.add(op="set", auto_write=0)
+            s.add(op="disc", id=s.oid(), rc=0)
+            s.add(op="wend", ec="reset")
+            s.add(op="set", auto_write=1)
+        s.add(op="advance", ms=r.choice([1, 1000, 6000])); s.add(op="advance", ms=6000)
+        s.add(op="drain")
+        return s.out()
     # the terminal event, possibly with the preceding step left un-settled, possibly made AHEAD of queued handlers
     now = {}
     k = r.random()
